@@ -1,5 +1,6 @@
 """C02 - eventual delivery: a healed network always drains the backlog."""
 import kcp_common as K
+import udp_common as U
 
 META = {
     "enabled": True,
@@ -22,6 +23,7 @@ def run(ctx):
     K.core_check(ctx, "C02", "C02.v", OBLIGATIONS, RELEVANT,
                  "kcp.go vs coq/kcp/Kcp.v on fault histories followed by a healed network")
     K.extra_statements(ctx, "kcp", "C02b.v", SYSTEM_OBLIGATIONS)
+    U.run_parts(ctx, ["relay"])
     ctx.coverage["rule"] = ("all 4^K fate vectors for the first K datagrams, random loss/outage/stall histories with outage lengths {0,1,99,100 ms,60 s,10 min}, "
                             "then a fair network with both sides driven (flush-with-interval or Update/Check) and readers reading until WaitSnd = 0 on both sides "
                             "or 10 virtual minutes; non-trivial = the history had a retransmission or a zero-window episode")
